@@ -28,6 +28,9 @@ def run(ctx):
     for e in t:
         e["t"] = 2
     vlib.note_events(ctx, g + t)
+    vlib.call_history_model(ctx)
+    vlib.call_histories(ctx, binp, [e for e in t if len(e["in"].get("leaves", [])) in (3, 5) or e["op"] != "merkle.Hash"], ["merkle.Hash"],
+                        "MerkleTrace", "real merkle.Hasher disagrees with the Merkle specification", chunk=40)
     bad = vlib.validate_trace(ctx, "MerkleTrace", g + t, chunk=40)
     conf = vlib.reproduce(ctx, binp, bad, history=g + t)
 
